@@ -12,7 +12,7 @@ over the query tree; `toIR` = the model of the frontend, compared with the real 
 by query by C11):
 
     theorem interp_eq_spec (S : SchemaView) (q : Spec.Query) (ir : IRQuery) (D : Data) (args) :
-        toIR S q = .ok ir → Hyps ⟨S, D, args, edges⟩ 3 q →
+        toIR S q = .ok ir → Hyps3 ⟨S, D, args, edges⟩ q ir →
         (interpret { Env.ofData D args with useLimits := false } ir).toOption =
           (Spec.rows ⟨D, args, edges⟩ q).toOption
 
@@ -22,8 +22,13 @@ optional scopes, edge parameters): `interp_eq_spec_F0`, `interp_eq_spec_F1`,
 `interp_ok_iff_spec_ok_F1`, `interp_eq_spec_F1_default_env`, and F2 (+ `@recurse`, built on the stage
 lemma `recurse_is_reach` below): `interp_eq_spec_F2`, `interp_ok_iff_spec_ok_F2`,
 `interp_eq_spec_F2_default_env`, and F3a (+ `@fold` in arbitrary nesting with count outputs/tags/filters and
-the missing-scope / empty-fold defaults, for queries where no fold imports a tag):
-`interp_eq_spec_F3a`, `interp_ok_iff_spec_ok_F3a`.  OPEN: F3b (folds importing tags).  Every run reports how many generated queries
+the missing-scope / empty-fold defaults) and F3 = the whole query language incl. tags imported into folds at
+any depth: `interp_eq_spec` (= `interp_eq_spec_F3`), `interp_ok_iff_spec_ok`; the staging names
+`interp_eq_spec_F3a`, `interp_ok_iff_spec_ok_F3a` are kept.  Nothing is open; what remains are the decidable
+hypotheses `Hyps3` (Proofs/InterpSpec/HypsDef.lean, Proofs/InterpSpec4/HypsDef3.lean): arguments present and
+regex variables compile (F-4), filters of a vertex in selection order = the frontend's grouped order,
+parameter completion agrees, recursion dataset convention, no count-filtered fold under a possibly missing
+optional scope (F-9), no duplicate tag imports (F-10), height ≤ 64.  Every run reports how many generated queries
 fall into the proved fragment with the hypotheses `Hyps` satisfied (driver request `hyps-c01`).
 
 Proved so far — the stage lemmas the induction is assembled from, each tying one engine mechanism
@@ -173,5 +178,8 @@ end TF.C01
 #print axioms TF.C01.interp_eq_spec_F2
 #print axioms TF.C01.interp_ok_iff_spec_ok_F2
 #print axioms TF.C01.interp_eq_spec_F2_default_env
+#print axioms TF.C01.interp_eq_spec
+#print axioms TF.C01.interp_ok_iff_spec_ok
+#print axioms TF.C01.interp_eq_spec_F3
 #print axioms TF.C01.interp_eq_spec_F3a
 #print axioms TF.C01.interp_ok_iff_spec_ok_F3a
